@@ -430,6 +430,13 @@ func runMemStream(kind string, ops []string) string {
 			if f[4] == "1" {
 				opts = append(opts, workflow.StreamFromLatest())
 			}
+			// optional 6th field (ignored by the model): the receiver is also given a poll frequency, before (1) or after (2)
+			// the other option — options are independent of one another and of their order
+			if len(f) > 5 && f[5] == "1" {
+				opts = append([]workflow.ReceiverOption{workflow.WithReceiverPollFrequency(time.Millisecond)}, opts...)
+			} else if len(f) > 5 && f[5] == "2" {
+				opts = append(opts, workflow.WithReceiverPollFrequency(time.Millisecond))
+			}
 			r, err := st.NewReceiver(ctx, "t"+f[2], "n"+f[3], opts...)
 			must(err)
 			hs[f[1]] = &rh{r: r}
@@ -518,7 +525,7 @@ func genMemStream(p *params, emit func(string, bool)) {
 		}
 		emit("mco "+strings.Join(cops, " "), true)
 	}
-	alpha := []string{"s.1.7", "s.2.8", "n.1.1.1.0", "n.2.1.1.0", "n.3.2.2.1", "r.1", "r.2", "r.3", "a.1", "a.2", "a.3"}
+	alpha := []string{"s.1.7", "s.2.8", "n.1.1.1.0", "n.2.1.1.0", "n.3.2.2.1.2", "r.1", "r.2", "r.3", "a.1", "a.2", "a.3"}
 	depth := p.pick(4, 5)
 	var rec func(prefix []string, d int)
 	rec = func(prefix []string, d int) {
@@ -557,7 +564,7 @@ func genMemStream(p *params, emit func(string, bool)) {
 					nameLatest[name] = r.Intn(2)
 				}
 				nh++
-				ops = append(ops, fmt.Sprintf("n.%d.%d.%d.%d", nh, nameTopic[name], name, nameLatest[name]))
+				ops = append(ops, fmt.Sprintf("n.%d.%d.%d.%d.%d", nh, nameTopic[name], name, nameLatest[name], r.Intn(3)))
 			case k < 8:
 				ops = append(ops, fmt.Sprintf("r.%d", 1+r.Intn(nh+1)))
 			default:
